@@ -191,6 +191,8 @@ class Front2:
                     if k == 'cv':
                         return ('s', '(%s.%s.getD %s 0)' % (e, '1' if nm == 'real' else '2', self.nat(c, a.slice)))
                 raise Untranslatable('np.%s argument' % nm)
+            if nm == 'copy':
+                return self.ev(c, node.args[0])
             if nm == 'isnan':
                 raise Untranslatable('isnan outside condition')
             raise Untranslatable('np.' + nm)
